@@ -359,7 +359,7 @@ def rule_sc1(ctx: Ctx):
     from ..model import valuations
     accvar = _plain_acc_var(ctx, [ospec_next, ospec_comp])
     space = ctx.space(spec)
-    if set(space) != {"reduce", "terminator"}:
+    if {n for n in space if not ctx.is_extension(spec, n)} != {"reduce", "terminator"}:
         raise AnalysisError("scan_mux: configuration parameters tested are %s, expected reduce and terminator" % sorted(space))
     for cfg in valuations(space):
         reduce_ = cfg["reduce"] == "True"
